@@ -589,7 +589,7 @@ def M(name, **templates):
 
 
 def _m(c, *a, **k):
-    return getattr(c.X(), c.meth)(*a, **k)
+    return c.call(c.X(), *a, **k)
 
 
 for _n in "all any argmax argmin max min mean prod sum std var cumsum cumprod".split():
@@ -618,8 +618,8 @@ TT[("nd.copy", "order")] = lambda c: _m(c, order="F")
 TT[("nd.copy", "orderpos")] = lambda c: _m(c, "F")
 TT[("nd.flatten", "order")] = lambda c: _m(c, "F")
 TT[("nd.ravel", "order")] = lambda c: _m(c, order="F")
-TT[("nd.transpose", "axes")] = lambda c: getattr(c.A((2, 3)), "transpose")(1, 0)
-TT[("nd.squeeze", "axis")] = lambda c: getattr(c.A((1, 3)), "squeeze")(axis=0)
+TT[("nd.transpose", "axes")] = lambda c: c.call(c.A((2, 3)), 1, 0)
+TT[("nd.squeeze", "axis")] = lambda c: c.call(c.A((1, 3)), axis=0)
 M("argpartition", kth=lambda c: c.np.asarray(getattr(c.A(uniq=True), "argpartition")(1))[..., 1])
 M("partition", kth=lambda c: (lambda a: (a.partition(1), c.np.asarray(a)[..., 1])[1])(c.A(uniq=True)))
 M("sort", pos=lambda c: (lambda a: (a.sort(), a)[1])(c.OUT(c.sh)), axis0=lambda c: (lambda a: (a.sort(axis=0), a)[1])(c.OUT(c.sh)))
@@ -630,15 +630,15 @@ M("choose", pos=lambda c: getattr(c.wrap(c.I((4,), 0, 1), "dimensionless"), "cho
 M("clip", pos=lambda c: _m(c, c.Q(lo=-4, hi=-1), c.Q(lo=1, hi=4)), bare=lambda c: _m(c, -1, 1), kw=lambda c: _m(c, min=c.Q(lo=-4, hi=-1)), out=lambda c: _m(c, c.Q(lo=-4, hi=-1), c.Q(lo=1, hi=4), out=c.OUT(c.sh, fill=False)))
 M("compress", pos=lambda c: getattr(c.A((3,)), "compress")([True, False, True]), axis=lambda c: getattr(c.A((2, 3)), "compress")([False, True], axis=0))
 M("diagonal", pos=lambda c: getattr(c.A((3, 3)), "diagonal")(), off=lambda c: getattr(c.A((3, 3)), "diagonal")(1), offkw=lambda c: getattr(c.A((2, 3)), "diagonal")(offset=-1))
-M("trace", pos=lambda c: getattr(c.A((3, 3)), "trace")(), off=lambda c: getattr(c.A((3, 3)), "trace")(1), dtype=lambda c: getattr(c.A((3, 3)), "trace")(dtype=c.np.float32))
-M("dot", pos=lambda c: getattr(c.A((2, 3)), "dot")(c.A((3, 2), u="s")), vec=lambda c: getattr(c.A((3,)), "dot")(c.A((3,), u="s")), bare=lambda c: getattr(c.A((2, 3)), "dot")(c.raw((3,))),
-  out=lambda c: getattr(c.A((2, 3)), "dot")(c.A((3, 2), u="s"), out=c.OUT((2, 2), u="km*s", fill=False)),
-  outpos=lambda c: getattr(c.A((2, 3)), "dot")(c.A((3, 2), u="s"), c.OUT((2, 2), u="km*s", fill=False)))
-M("take", pos=lambda c: getattr(c.A((4,)), "take")([0, 2, 2]), scalar=lambda c: getattr(c.A((4,)), "take")(1), axis=lambda c: getattr(c.A((2, 3)), "take")([2, 0], axis=1), axpos=lambda c: getattr(c.A((2, 3)), "take")([1], 0),
-  out=lambda c: getattr(c.A((4,)), "take")([0, 2], out=c.OUT((2,), fill=False)), wrap=lambda c: getattr(c.A((4,)), "take")([5, -1], mode="wrap"), clipm=lambda c: getattr(c.A((4,)), "take")([5, -7], None, None, "clip"))
+M("trace", pos=lambda c: c.call(c.A((3, 3))), off=lambda c: c.call(c.A((3, 3)), 1), dtype=lambda c: c.call(c.A((3, 3)), dtype=c.np.float32))
+M("dot", pos=lambda c: c.call(c.A((2, 3)), c.A((3, 2), u="s")), vec=lambda c: c.call(c.A((3,)), c.A((3,), u="s")), bare=lambda c: c.call(c.A((2, 3)), c.raw((3,))),
+  out=lambda c: c.call(c.A((2, 3)), c.A((3, 2), u="s"), out=c.OUT((2, 2), u="km*s", fill=False)),
+  outpos=lambda c: c.call(c.A((2, 3)), c.A((3, 2), u="s"), c.OUT((2, 2), u="km*s", fill=False)))
+M("take", pos=lambda c: c.call(c.A((4,)), [0, 2, 2]), scalar=lambda c: c.call(c.A((4,)), 1), axis=lambda c: c.call(c.A((2, 3)), [2, 0], axis=1), axpos=lambda c: c.call(c.A((2, 3)), [1], 0),
+  out=lambda c: c.call(c.A((4,)), [0, 2], out=c.OUT((2,), fill=False)), wrap=lambda c: c.call(c.A((4,)), [5, -1], mode="wrap"), clipm=lambda c: c.call(c.A((4,)), [5, -7], None, None, "clip"))
 M("put", pos=lambda c: (lambda a: (a.put([0, 2], c.A((2,))), a)[1])(c.OUT((4,))), clip=lambda c: (lambda a: (a.put([9], c.A((1,)), mode="clip"), a)[1])(c.OUT((4,))))
 M("repeat", pos=lambda c: _m(c, 2), axis=lambda c: _m(c, 2, axis=0))
-M("reshape", pos=lambda c: _m(c, -1), tup=lambda c: getattr(c.A((2, 3)), "reshape")((3, 2)), order=lambda c: getattr(c.A((2, 3)), "reshape")(3, 2, order="F"))
+M("reshape", pos=lambda c: _m(c, -1), tup=lambda c: c.call(c.A((2, 3)), (3, 2)), order=lambda c: c.call(c.A((2, 3)), 3, 2, order="F"))
 M("resize", pos=lambda c: (lambda a: (a.resize((2, 2), refcheck=False), a)[1])(c.A((4,))))
 M("round", pos=lambda c: _m(c), dec=lambda c: _m(c, 1), out=lambda c: _m(c, decimals=1, out=c.OUT(c.sh, dt=c.fo, fill=False)))
 M("searchsorted", pos=lambda c: getattr(c.A((4,), srt=True, lo=-3, hi=3), "searchsorted")(c.A((3,), lo=-3, hi=3)), right=lambda c: getattr(c.A((4,), srt=True, lo=-1, hi=1), "searchsorted")(c.A((3,), lo=-1, hi=1), side="right"), rightpos=lambda c: getattr(c.A((4,), srt=True, lo=-1, hi=1), "searchsorted")(c.A((3,), lo=-1, hi=1), "right"))
@@ -651,3 +651,121 @@ def _set(c, key, val):
     a = c.OUT((4,))
     a[key] = val
     return a
+
+
+# ---- keyword completeness ---------------------------------------------------------------------------------------
+# value classes per keyword (names are stated in spec/ArrayFnNumCat.tla: KwVal); a class resolves to the kwargs
+# injected into the base template's call.  Function-specific meanings (mode=, order=, ...) are resolved by KWF.
+def _ax(c, v):
+    return {"axis": v}
+
+
+KWV = {
+    "axis": {"0": lambda c: {"axis": 0}, "m1": lambda c: {"axis": -1}},
+    "keepdims": {"T": lambda c: {"keepdims": True}},
+    "ddof": {"1": lambda c: {"ddof": 1}},
+    "correction": {"1": lambda c: {"correction": 1}},
+    "kind": {"stable": lambda c: {"kind": "stable"}, "mergesort": lambda c: {"kind": "mergesort"}, "heapsort": lambda c: {"kind": "heapsort"}},
+    "stable": {"T": lambda c: {"stable": True}},
+    "descending": {"T": lambda c: {"descending": True}},
+    "side": {"right": lambda c: {"side": "right"}},
+    "dtype": {"f4": lambda c: {"dtype": c.np.float32}, "f8": lambda c: {"dtype": c.np.float64}},
+    "casting": {"unsafe": lambda c: {"dtype": c.np.float32, "casting": "unsafe"}},
+    "where": {"mask": lambda c: {"where": c.B()}},
+    "initial": {"2": lambda c: {"initial": 2}},
+    "decimals": {"1": lambda c: {"decimals": 1}, "m1": lambda c: {"decimals": -1}},
+    "k": {"1": lambda c: {"k": 1}, "m1": lambda c: {"k": -1}},
+    "offset": {"1": lambda c: {"offset": 1}, "m1": lambda c: {"offset": -1}},
+    "axis1": {"1": lambda c: {"axis1": 1, "axis2": 0}},
+    "axis2": {"0": lambda c: {"axis1": 1, "axis2": 0}},
+    "n": {"2": lambda c: {"n": 2}, "5": lambda c: {"n": 5}},
+    "prepend": {"q": lambda c: {"prepend": c.Q()}},
+    "append": {"q": lambda c: {"append": c.Q()}},
+    "to_end": {"q": lambda c: {"to_end": c.Q()}},
+    "to_begin": {"q": lambda c: {"to_begin": c.Q()}},
+    "num": {"5": lambda c: {"num": 5}},
+    "endpoint": {"F": lambda c: {"endpoint": False}},
+    "retstep": {"T": lambda c: {"retstep": True}},
+    "base": {"2": lambda c: {"base": 2.0}},
+    "equal_nan": {"T": lambda c: {"equal_nan": True}},
+    "rtol": {"big": lambda c: {"rtol": 0.5}, "0": lambda c: {"rtol": 0.0}},
+    "atol": {"0": lambda c: {"atol": 0.0}},
+    "assume_unique": {"T": lambda c: {"assume_unique": True}},
+    "return_indices": {"T": lambda c: {"return_indices": True}},
+    "invert": {"T": lambda c: {"invert": True}},
+    "density": {"T": lambda c: {"density": True}},
+    "bins": {"4": lambda c: {"bins": 4}},
+    "full_matrices": {"F": lambda c: {"full_matrices": False}},
+    "compute_uv": {"F": lambda c: {"compute_uv": False}},
+    "hermitian": {"T": lambda c: {"hermitian": True}},
+    "UPLO": {"U": lambda c: {"UPLO": "U"}},
+    "rcond": {"half": lambda c: {"rcond": 0.5}},
+    "rtol_la": {},
+    "ord": {"1": lambda c: {"ord": 1}, "inf": lambda c: {"ord": c.np.inf}},
+    "norm": {"ortho": lambda c: {"norm": "ortho"}, "forward": lambda c: {"norm": "forward"}},
+    "axes": {"0": lambda c: {"axes": 0}},
+    "wrap": {"T": lambda c: {"wrap": True}},
+    "left": {"9": lambda c: {"left": -9.0}},
+    "right": {"9": lambda c: {"right": 9.0}},
+    "period": {"p": lambda c: {"period": 2.5}},
+    "discont": {"1": lambda c: {"discont": 1.0, "period": 4.0}},
+    "method": {"lower": lambda c: {"method": "lower"}, "nearest": lambda c: {"method": "nearest"}},
+    "dx": {"half": lambda c: {"dx": 0.5}},
+    "optimize": {"T": lambda c: {"optimize": True}},
+    "mode": {"alt1": None, "alt2": None},
+    "order": {"F": lambda c: {"order": "F"}},
+    "axisa": {"0": lambda c: {"axisa": 0, "axisb": 0, "axisc": 0}},
+    "axisb": {"0": lambda c: {"axisa": 0, "axisb": 0}},
+    "axisc": {"0": lambda c: {"axisc": 0}},
+    "default": {"7": lambda c: {"default": 7}},
+    "ind": {"1": lambda c: {"ind": 1}},
+    "copy": {"F": lambda c: {"copy": False}},
+    "nan": {"v": lambda c: {"nan": 1.5}},
+    "posinf": {"v": lambda c: {"posinf": 7.0}},
+    "neginf": {"v": lambda c: {"neginf": -7.0}},
+    "weights": {"w": lambda c: {"weights": c.A((6,), u="s", pos=True)}},
+    "range": {"r": lambda c: {"range": (-1.0, 1.0)}},
+    "stat_length": {"2": lambda c: {"mode": "maximum", "stat_length": 2}},
+    "constant_values": {"3": lambda c: {"constant_values": 3}},
+    "end_values": {"e": lambda c: {"mode": "linear_ramp", "end_values": (1, 2)}},
+    "reflect_type": {"odd": lambda c: {"mode": "reflect", "reflect_type": "odd"}},
+    "indexing": {"ij": lambda c: {"indexing": "ij"}},
+    "precision": {"2": lambda c: {"precision": 2}},
+    "max_line_width": {"20": lambda c: {"max_line_width": 20}},
+    "fmt": {"e": lambda c: {"fmt": "%.3e"}},
+    "delimiter": {"c": lambda c: {"delimiter": ","}},
+}
+# function-specific meanings of mode=
+_MODES = {
+    "take": ("wrap", "clip"), "choose": ("wrap", "clip"), "put": ("wrap", "clip"),
+    "convolve": ("same", "full"), "correlate": ("same", "full"), "pad": ("edge", "reflect"),
+}
+
+
+def _kwf(fn, kw, kv):
+    short = fn.split(".")[-1]
+    if kw == "mode":
+        m = _MODES.get(short)
+        if m is None:
+            return None
+        val = m[0] if kv == "alt1" else m[1]
+        return lambda c: {"mode": val}
+    if kw == "order" and short in ("argsort", "sort", "sort_complex", "partition", "argpartition"):
+        return None  # field order of structured dtypes: not templated
+    if kw == "axis" and short in ("fftshift", "ifftshift"):
+        return None
+    if kw == "axes" and fn.startswith("np.fft."):
+        return lambda c: {"axes": (1, 0)}
+    if kw == "kind" and short == "isin":
+        return {"stable": (lambda c: {"kind": "sort"}), "mergesort": (lambda c: {"kind": "table"})}.get(kv)
+    f = KWV.get(kw, {}).get(kv)
+    return f
+
+
+def has_kwvalue(fn, kw, kv):
+    return _kwf(fn, kw, kv) is not None
+
+
+def kwvalue(c, kw, kv):
+    f = _kwf(c.fn, kw, kv)
+    return f(c) if f is not None else {}
